@@ -29,3 +29,5 @@ _reg(ProdProp('C05', ['Ea.C05.getNext_least', 'Ea.C05.result_passes_filter', 'Ea
 _reg(ProdProp('C06', ['Ea.C06.replace_unique', 'Ea.C06.replace_gap_skip', 'Ea.C06.replace_gap_earlier_later',
                       'Ea.C06.replace_gap_after', 'Ea.C06.replace_fold', 'Ea.C06.time_once_per_day',
                       'Ea.C06.after_tries_matches', 'Ea.Zone.resolve_unique', 'Ea.Zone.resolve_fold', 'Ea.Zone.resolve_gap']))
+_reg(ProdProp('C13', ['Ea.C13.op_result_from_inner', 'Ea.C13.offset_exact', 'Ea.C13.bound_is_candidate', 'Ea.C13.earliest_clamp',
+                      'Ea.C13.latest_clamp', 'Ea.C13.earliest_latest_result', 'Ea.C13.jitter_window', 'Ea.C13.jitter_eps_matches']))
